@@ -4,10 +4,13 @@ open Gsu.Proto Gsu.LangRegex
 
 /-!
 pattern tokens (one space between tokens):
-  re ::= c<byte> | . | ^ | $ | ( k <neg 0|1> <n> (<lo> <hi>)*n ) | ( s re re ) | ( a re re )
+  re ::= c<byte> | . | ^ | $ | A | Z | ( k <neg 0|1> <n> (<lo> <hi>)*n ) | ( s re re ) | ( a re re )
        | ( * <greedy 0|1> re ) | ( + <greedy> re ) | ( ? <greedy> re ) | ( g <n> re )
 op:
-  match <ngroups> <subject x-hex> <re>  →  - | <start> <end> (<gstart> <gend>)*ngroups   (-1 -1 = unset)
+  match <ic 0|1> <ngroups> <subject x-hex> <re>       →  - | <start> <end> (<gstart> <gend>)*ngroups   (-1 -1 = unset)
+  first <ic> <ngroups> <pos> <subject> <re>            FirstMatch(s, pos)
+  last <ic> <ngroups> <pos> <subject> <re>             LastMatch(s, pos)
+  all <ic> <subject> <re>                              →  - | <start>:<end> …
 -/
 
 partial def parseRanges : Nat → List String → Option (List (UInt8 × UInt8) × List String)
@@ -23,6 +26,8 @@ partial def parseRe : List String → Option (Re × List String)
   | "." :: r => some (.any, r)
   | "^" :: r => some (.bol, r)
   | "$" :: r => some (.eol, r)
+  | "A" :: r => some (.bos, r)
+  | "Z" :: r => some (.eos, r)
   | "(" :: "k" :: neg :: n :: r => do
     let n ← parseNat n
     let (rs, r) ← parseRanges n r
@@ -68,20 +73,35 @@ partial def parseRe : List String → Option (Re × List String)
     | _ => none
   | [] => none
 
+def showMatch (ng : Nat) : Option (Nat × Nat × Caps) → String
+  | none => "-"
+  | some (a, b, caps) =>
+    let gs := (List.range ng).map fun g =>
+      match capOf caps (g + 1) with
+      | some (x, y) => toString x ++ " " ++ toString y
+      | none => "-1 -1"
+    " ".intercalate ((toString a ++ " " ++ toString b) :: gs)
+
 def step (l : List String) : String :=
   match l with
-  | "match" :: ng :: subj :: toks =>
+  | "match" :: ic :: ng :: subj :: toks =>
     match parseNat ng, parseBytes subj, parseRe toks with
-    | some ng, some s, some (re, []) =>
-      match search s re with
-      | none => "-"
-      | some (a, b, caps) =>
-        let gs := (List.range ng).map fun g =>
-          match capOf caps (g + 1) with
-          | some (x, y) => toString x ++ " " ++ toString y
-          | none => "-1 -1"
-        " ".intercalate ((toString a ++ " " ++ toString b) :: gs)
+    | some ng, some s, some (re, []) => showMatch ng (search (ic == "1") s re)
     | _, _, _ => "bad-op"
+  | "first" :: ic :: ng :: pos :: subj :: toks =>
+    match parseNat ng, parseNat pos, parseBytes subj, parseRe toks with
+    | some ng, some pos, some s, some (re, []) => showMatch ng (searchAt (ic == "1") s re pos)
+    | _, _, _, _ => "bad-op"
+  | "last" :: ic :: ng :: pos :: subj :: toks =>
+    match parseNat ng, parseNat pos, parseBytes subj, parseRe toks with
+    | some ng, some pos, some s, some (re, []) => showMatch ng (lastFrom (ic == "1") s re pos)
+    | _, _, _, _ => "bad-op"
+  | "all" :: ic :: subj :: toks =>
+    match parseBytes subj, parseRe toks with
+    | some s, some (re, []) =>
+      let ms := all (ic == "1") s re
+      if ms.isEmpty then "-" else " ".intercalate (ms.map fun (a, b) => toString a ++ ":" ++ toString b)
+    | _, _ => "bad-op"
   | _ => "bad-op"
 
 def main : IO Unit := run step
